@@ -59,6 +59,7 @@ type conf struct {
 	clients    int
 	shutdownMs int
 	ctxMs      int
+	abortMs    map[int]int // client -> time at which it aborts its connection (RST)
 }
 
 func scenario(c conf) *vm.Scenario {
@@ -118,6 +119,15 @@ func client(c conf, k int) {
 			vm.Log("client %d sent id=%d t=%d", k, q.id, vm.Now()/1e6)
 		}
 	})
+	if at, ok := c.abortMs[k]; ok {
+		vm.GoNamed("client-aborter", func() {
+			if d := int64(at)*1e6 - vm.Now(); d > 0 {
+				vm.Sleep(d)
+			}
+			conn.Reset()
+			vm.Log("client %d aborted t=%d", k, vm.Now()/1e6)
+		})
+	}
 	var buf []byte
 	tmp := make([]byte, 65536)
 	conn.SetReadDeadline(vtime.Now().Add(7500 * time.Millisecond))
@@ -212,6 +222,9 @@ func check(c conf, r *vm.Result) string {
 			Timeout: 60000, Context: map[string]string{}, Status: map[string]string{}}).Encode())
 		sent[q.client] += n
 		sconn := "s" + strings.TrimPrefix(connOf[q.client], "c")
+		if _, aborted := c.abortMs[q.client]; aborted {
+			continue
+		}
 		if read[sconn] >= sent[q.client] {
 			// fully read by the server: must be answered before the connection is closed
 			if !got[q.id] {
@@ -227,6 +240,10 @@ func check(c conf, r *vm.Result) string {
 		}
 	}
 	for k := 0; k < c.clients; k++ {
+		if _, aborted := c.abortMs[k]; aborted {
+			delete(connOf, k) // it left by itself: nothing is owed to it
+			continue
+		}
 		if connOf[k] == "" || !accepted["s"+strings.TrimPrefix(connOf[k], "c")] {
 			// never accepted by the server: not a connected client
 			delete(connOf, k)
@@ -330,6 +347,9 @@ func main() {
 		// three requests, the last arriving while shutdown is in progress
 		add(conf{name: "three", pool: pool, queueCap: 1, clients: 1, shutdownMs: 100, ctxMs: 10000,
 			reqs: []req{{0, 5, 300, 1}, {0, 6, 300, 2}, {0, 150, 0, 3}}}, b-1, false)
+		// one client aborts its connection while its request is still running; the others must still be notified
+		add(conf{name: "aborting-client", pool: pool, queueCap: 8, clients: 3, shutdownMs: 100, ctxMs: 10000, abortMs: map[int]int{0: 50},
+			reqs: []req{{0, 5, 700, 1}, {2, 5, 0, 2}}}, 1, false)
 		// idle connected client
 		add(conf{name: "idle-client", pool: pool, queueCap: 8, clients: 2, shutdownMs: 100, ctxMs: 10000,
 			reqs: []req{{0, 5, 0, 1}}}, b, false)
